@@ -138,7 +138,9 @@ SPEC = PropSpec(
     scenarios=[(1, C17Tables)],
     runs={"quick": 60000, "thorough": 1500000},
     rule=("THIN (hash seam only).  one run = HeavyHitters (add only) or StreamThreshold (add + legitimate remove) of "
-          "width {1,2,3,50} x depth 1..3, hitters/threshold 1..10, a universe of 7..12 keys, <=60 steps; the harness "
+          "width {1,2,3,50} x depth 1..3, hitters/threshold 1..10, a universe of 7..12 keys, <=60 steps (1 run in 60: 512..600 "
+          "table entries, 700 keys, bulk adds and newcomers aimed between the two smallest tracked estimates; 1 in 4: an "
+          "object of the same class lived and died at the subject's address before); the harness "
           "remembers what each add/remove RETURNED and after every step compares the tracking table with it (size, "
           "values, no missed hitter / exactly the keys at or above the threshold).  non-trivial = more distinct keys than "
           "table slots (HH) / both tracked and untracked keys (ST); distinct = event-log digests"),
